@@ -28,6 +28,7 @@ import gen  # noqa: E402
 import compopt  # noqa: E402  (leg "compressor configuration and options block", coq/CompOpt)
 import wrap  # noqa: E402  (leg "wrap boundaries of count x element-size products", coq/C05/Wrap.v)
 import compleg  # noqa: E402  (leg "hostile COMPRESSED blocks for every compiled-in compressor": valid streams with forged inner fields)
+import lookup  # noqa: E402  (leg "path / name lookup on hostile directory entry names", coq/C05/Lookup.v)
 import huge  # noqa: E402  (leg "huge logical sizes in tiny images": files of 2^32 bytes and more made of sparse blocks)
 
 LEVEL = "proof"
@@ -512,6 +513,8 @@ def run(ctx):
         "the tie, other compressors are not compared (search oracle only)",
         "props/C05/compleg.py (locator of the blocks of a real image, codec-aware field edits, hand-made LZMA-alone streams; "
         "Python zlib / lzma, system liblz4 / libzstd via ctypes) + props/C10/sizeleg.py, errleg.py reused by path",
+        "props/C05/h_lookup.c (lookup harness, paths in exactly sized heap buffers) + props/C05/lookup.py: expect_resolve / "
+        "expect_tree are a Python transliteration of coq/C05/Lookup.v (resolve LenStrlen), not the extracted model",
     ]
     ctx.assumptions += [
         "size_t is 64 bit; allocations above 2 GiB fail (model: alloc_limit; implementation run with the same limit)",
@@ -532,6 +535,9 @@ def run(ctx):
         viol = []
         if img is not None and r.get("leg") == "huge":
             viol = huge.replay(ctx, e, r, run_proc, died, TIMEOUT)
+            ctx.coverage["evaluations"] = 1
+        elif img is not None and r.get("leg") == "lookup":
+            viol = lookup.replay(ctx, e, r, img, run_proc, died, TIMEOUT)
             ctx.coverage["evaluations"] = 1
         elif img is not None:
             if r.get("ops"):
@@ -599,6 +605,14 @@ def run(ctx):
     viol += v
     stats_all.append(st)
     ctx.log("compressed-block leg: %s, %d executions, %d problems so far (%.1fs)" % (csum, st["runs"], len(viol), time.time() - tc))
+    # every public path / name lookup entry point on hostile directory entry names, paths in exactly sized heap buffers
+    tl = time.time()
+    v, lkst = lookup.run_leg(ctx, e, random.Random(ctx.seed * 49979687 + 29), run_proc, died, TIMEOUT)
+    viol += v
+    stats_all.append(lkst)
+    ctx.log("lookup leg: %d images, %d paths, %d API calls, %d answers checked against the model, %d tool runs, %d problems so "
+            "far (%.1fs)" % (lkst["images"], lkst["queries"], lkst["calls"], lkst["answers_checked"], lkst["tool_runs"], len(viol),
+                             time.time() - tl))
     by_p = {}
     for nm, img, p in real_cases:
         by_p.setdefault(p, []).append((nm, img))
@@ -687,7 +701,14 @@ def run(ctx):
         "rest); plus %d Builder images with hand-made streams as data / fragment blocks (props/C10/sizeleg.py, errleg.py, "
         "extended to lzma), each scenario file also read by rdsquashfs -c in a process of its own.  Sanitizer / signal / "
         "time-out oracle only: these images are not compared with the model." % (
-            "/".join(csum["codecs"]), csum["real_mutants"], csum["real_mutants_run"], csum["builder_images"]))
+            "/".join(csum["codecs"]), csum["real_mutants"], csum["real_mutants_run"], csum["builder_images"]) +
+        "  Lookup leg (props/C05/lookup.py, h_lookup.c): %d Builder images with one hostile directory entry name (embedded NUL + "
+        "tail up to 64 KiB, leading NUL, '/', '.', '..', 255..65536 byte names, names equal to / prefix of / extension of the "
+        "looked-up component; before / after / instead of benign entries; as directory or file), %d paths each handed in a heap "
+        "buffer of exactly strlen+1 bytes to sqfs_dir_reader_resolve_path (root NULL / root inode / DOT_ENTRIES reader + "
+        "resolve_inum) and sqfs_dir_reader_get_full_hierarchy (flags 0 / STORE_PARENTS): %d calls under ASan/UBSan, %d answers "
+        "compared with the component-match model (coq/C05/Lookup.v via its transliteration); rdsquashfs -l/-s/-c <path> on %d "
+        "(image, path) pairs." % (lkst["images"], lkst["queries"], lkst["calls"], lkst["answers_checked"], lkst["tool_runs"]))
     ctx.coverage["distribution"] = dict(images=len(cases) + len(real_cases) + nwrap + nhuge + csum.get("images", 0) + 1, wrap_boundary_images=nwrap,
                                         huge_size_images=nhuge, compressed_block_images=csum.get("images", 0),
                                         transcripts_compared=tot["compared"],
@@ -696,6 +717,7 @@ def run(ctx):
                                         tool_verdicts_checked=tot["verdict_checked"], meta_sequences=nmeta,
                                         error_classes_reached=len(errc), nest_depth_tested=NEST_TESTED)
     ctx.coverage["compressed_block_leg"] = csum
+    ctx.coverage["lookup_leg"] = {k: lkst[k] for k in ("images", "queries", "calls", "answers_checked", "found", "tool_runs", "unk")}
     ctx.coverage["huge_size_leg"] = dict(images=nhuge, exit_codes=[st for st in stats_all if "exit_codes" in st][0]["exit_codes"])
     ctx.coverage["error_classes"] = dict(sorted(errc.items())[:60])
     ctx.add_samples([dict(image=cases[i][0], bytes=len(cases[i][1])) for i in (1, len(cases) // 2, len(cases) - 1)])
